@@ -343,15 +343,17 @@ def checkTxn (s : St) : St := Id.run do
             let penOnly := match costEncl s.orth 0 r, costEncl s.orth 0 f with
               | some (ll, _), some (_, fh') => s.pen > 0 && ll ≤ fh' + tol
               | _, _ => false
-            -- does the cheaper fresh route have fewer bends and turn at a corner of an obstacle that was
-            -- added / moved in this transaction (a via-vertex the old route could not know)?
+            -- with segmentPenalty > 0: does the cheaper fresh route have no more bends than the old one and
+            -- turn at a corner of an obstacle that was added / moved in this transaction (a via-vertex the
+            -- old route could not know)? Without a bend penalty a new vertex can never shorten a route; with
+            -- one, the best route with at most k bends can improve, and nothing alerts the connector.
             let newCorners : List Pt := sc.obsts.foldl (fun acc o =>
               if s.dirty.contains o.id then
                 match (if o.isJ then junctionBox o.geom else rectOfPoly o.geom) with
                 | some rc => [⟨rc.x0, rc.y0⟩, ⟨rc.x1, rc.y0⟩, ⟨rc.x1, rc.y1⟩, ⟨rc.x0, rc.y1⟩] ++ acc
                 | none => acc
               else acc) []
-            let viaNew := decide (s.pen > (0 : Rat)) && decide (bendUnits f < bendUnits r) &&
+            let viaNew := decide (s.pen > (0 : Rat)) && decide (bendUnits f ≤ bendUnits r) &&
               (f.toList.drop 1).dropLast.any (fun p => newCorners.contains p)
             let kind := if changed then "rerouted-worse" else if penOnly then "not-rerouted-fewer-bends-only"
               else if viaNew then "not-rerouted-fewer-bends-via-new-vertex" else "not-rerouted"
